@@ -58,6 +58,15 @@ def probe(sg, occupied, scale=1.0):
     return Atoms(numbers=num, scaled_positions=pos, cell=cell, pbc=True)
 
 
+PIN = [(14, {"x": 0.1372, "y": 0.2931, "z": 0.4177}), (8, {"x": 0.3519, "y": 0.0814, "z": 0.2266}), (26, {"x": 0.4233, "y": 0.3877, "z": 0.0791})]
+
+
+def pinned_probe(sg, extra=(), npin=3):
+    """general position occupied by three species with unrelated parameters (pins the space group), plus `extra`"""
+    g = _chiral_probe(sg)[-1]
+    return probe(sg, [(g, Z, p) for Z, p in PIN[:npin]] + list(extra))
+
+
 def analyze(atoms, tol=1e-3):
     from matid.symmetry.symmetryanalyzer import SymmetryAnalyzer
 
@@ -91,10 +100,8 @@ def replay_wyckoff_params(sg, letter):
     letters = sorted(k for k in WY[sg] if k != "translations")
     alphabet = "abcdefghijklmnopqrstuvwxyzA"
     general = sorted(letters, key=alphabet.index)[-1]
-    occ = [(letter, 14, None)]
-    if letter != general:
-        occ.append((general, 8, None))
-    atoms = probe(sg, occ)
+    occ = [(letter, 29, None)]
+    atoms = pinned_probe(sg, occ, npin=2)
     res = {"probe": {"sg": sg, "occupied": [o[0] for o in occ], "natoms": len(atoms)}}
     try:
         a = analyze(atoms)
